@@ -72,8 +72,8 @@ class Header12:
         m = self.flag_mask
         for pref in ("simple_dns::dns::_::<impl dns::PacketFlag>::", "simple_dns::dns::_::<impl simple_dns::PacketFlag>::",
                      "simple_dns::PacketFlag::"):
-            h[("call", pref + "from_bits_truncate")] = lambda vals: vals[0] & m
+            h[("call", pref + "from_bits_truncate")] = lambda vals: (vals[0] & m) if isinstance(vals[0], int) else Opaque("from_bits_truncate of a non-integer")
             h[("call", pref + "bits")] = lambda vals: vals[0]
-            h[("call", pref + "contains")] = lambda vals: int((vals[0] & vals[1]) == vals[1])
+            h[("call", pref + "contains")] = lambda vals: int((vals[0] & vals[1]) == vals[1]) if isinstance(vals[0], int) and isinstance(vals[1], int) else Opaque("contains on non-integers")
             h[("call", pref + "empty")] = lambda vals: 0
         return h
